@@ -3,7 +3,7 @@
    null): the C02 model carries the decision function; the two theorems are re-stated here.
    Planner / loader part: coordinate collector, seeding, fetch gate, coordinate per mode. *)
 From Gv Require Import lib.Bytes lib.Json C02.Model C02.Spec C02.Properties
-     C14.Model C14.Spec C14.ProofsCollect C14.ProofsGate C14.ProofsMode.
+     C14.Model C14.Spec C14.ProofsCollect C14.ProofsGate C14.ProofsMode C14.ProofsHooks.
 Open Scope N_scope.
 
 (* ------------------------------------------------------------------ renderer part (C02) *)
@@ -94,6 +94,36 @@ Example c14_c02_example :
   node_auths C02.Properties.ex_auth_plan = [{| au_parent_type := [84]; au_field := [97] |}] /\
   collect_coordinates {| pl_op := OP_QUERY; pl_fetches := []; pl_root := of_node (fun _ => [[65]]) C02.Properties.ex_auth_plan |}
   = [{| co_ds := [65]; co_type := [84]; co_field := [97] |}].
+Proof. vm_compute. split; reflexivity. Qed.
+
+(* T4b (seeded regression C14-m6): completeness over EVERY shape of the plan tree, against an independent occurrence
+   relation (a field occurs directly in an object, below a field's value, or below an array's item -- any number of
+   array levels in any mixture): [fields_of], which the other collector theorems quantify over, is exactly it, and every
+   rule-carrying field that occurs in the tree has its coordinates collected; in particular below [k] list levels *)
+Theorem fields_of_is_occurrence : forall (n : pnode) (f : finfo), In f (fields_of n) <-> occurs f n.
+Proof. intros n f. split; [apply fields_of_occurs | apply occurs_fields_of]. Qed.
+Print Assumptions fields_of_is_occurrence.
+Theorem collector_complete_every_shape :
+  forall (p : plan) (f : finfo) (s : bytes),
+    occurs f (pl_root p) -> fi_rule f = true -> In s (fi_sources f) ->
+    In {| co_ds := s; co_type := fi_parent f; co_field := fi_name f |} (collect_coordinates p).
+Proof. exact collector_complete_every_shape_lemma. Qed.
+Print Assumptions collector_complete_every_shape.
+Theorem collector_complete_nested_lists :
+  forall (op : N) (fetches : list fetchinfo) (k : nat) (outer : bytes) (oinfo : option finfo) (inner : bytes)
+         (f : finfo) (v : pnode) (s : bytes),
+    fi_rule f = true -> In s (fi_sources f) ->
+    In {| co_ds := s; co_type := fi_parent f; co_field := fi_name f |}
+       (collect_coordinates {| pl_op := op; pl_fetches := fetches;
+                               pl_root := PObj [PFld outer oinfo (nest k (PObj [PFld inner (Some f) v]))] |}).
+Proof. exact collector_complete_nested_lists_lemma. Qed.
+Print Assumptions collector_complete_nested_lists.
+(* `{ board { secret } }` with board: [[Cell]]: collected; the variant that descends into an array only when its item is
+   an object collects nothing *)
+Example c14_collector_nested_list_example :
+  collect_coordinates {| pl_op := OP_QUERY; pl_fetches := []; pl_root := ex_board |}
+  = [{| co_ds := [65]; co_type := [67]; co_field := [115] |}] /\
+  collect_node_objitems ex_board = [].
 Proof. vm_compute. split; reflexivity. Qed.
 
 (* T5 unseeded_never_reached: with the decisions seeded from the collected coordinates by the
@@ -221,6 +251,73 @@ Example c14_gate_fetch_type_example :
   (* ... and only a fetch without a type of its own follows the request *)
   is_fetch_authorized true OP_MUTATION {| ft_ds := [67]; ft_op := OP_UNKNOWN; ft_roots := roots |} k = false /\
   is_fetch_authorized true OP_QUERY {| ft_ds := [67]; ft_op := OP_UNKNOWN; ft_roots := roots |} k = true.
+Proof. vm_compute. repeat split. Qed.
+
+(* T9d (seeded regression C14-m7): the gate under the loader's other pre-fetch hooks.  validatePreFetch is the gate AND
+   the rate limiter: for every limiter (absent, passing, rejecting, failing; enabled or not) and every cache a fetch
+   that carries a FetchInfo is sent ONLY IF the gate allows it -- the limiter cannot turn the gate's "no" into a "yes" *)
+Theorem validate_pre_fetch_is_gate_and_limit :
+  forall (has_authorization : bool) (request_op : N) (ft : fetchinfo) (k : cache)
+         (enabled : bool) (limiter : option (fetchinfo -> rl_answer)),
+    validate_pre_fetch has_authorization request_op (Some ft) k enabled limiter
+    = is_fetch_authorized has_authorization request_op ft k && rate_limit_fetch enabled limiter ft.
+Proof. exact validate_is_gate_and_limit. Qed.
+Print Assumptions validate_pre_fetch_is_gate_and_limit.
+Theorem fetch_gate_under_rate_limit :
+  forall (has_authorization : bool) (request_op : N) (ft : fetchinfo) (k : cache)
+         (enabled : bool) (limiter : option (fetchinfo -> rl_answer)),
+    validate_pre_fetch has_authorization request_op (Some ft) k enabled limiter = true ->
+    is_fetch_authorized has_authorization request_op ft k = true.
+Proof. exact validate_implies_gate. Qed.
+Print Assumptions fetch_gate_under_rate_limit.
+(* ... so, with the cache seeded from the collector by the batch authorizer [d], a fetch of the plan that is sent is one
+   the rule of the property does not forbid, whatever the limiter answers; and under a limiter that is off, absent or
+   lets everything pass, it is sent exactly then (rate limiting that passes is transparent) *)
+Theorem fetch_gate_sent_only_if_rule_allows :
+  forall (p : plan) (d : bytes -> bytes -> bool) (ft : fetchinfo) (request_op : N)
+         (enabled : bool) (limiter : option (fetchinfo -> rl_answer)), In ft (pl_fetches p) ->
+    validate_pre_fetch true request_op (Some ft) (seed d (collect_coordinates p)) enabled limiter = true ->
+    must_not_send (if ft_op ft =? OP_UNKNOWN then request_op else ft_op ft)
+                  (map (fun r => (rf_rule r, d (rf_type r) (rf_field r))) (ft_roots ft)) = false.
+Proof. exact sent_only_if_rule_allows. Qed.
+Print Assumptions fetch_gate_sent_only_if_rule_allows.
+Theorem fetch_gate_transparent_limiter :
+  forall (p : plan) (d : bytes -> bytes -> bool) (ft : fetchinfo) (request_op : N)
+         (enabled : bool) (limiter : option (fetchinfo -> rl_answer)), In ft (pl_fetches p) ->
+    limiter_transparent enabled limiter ->
+    validate_pre_fetch true request_op (Some ft) (seed d (collect_coordinates p)) enabled limiter
+    = negb (must_not_send (if ft_op ft =? OP_UNKNOWN then request_op else ft_op ft)
+                          (map (fun r => (rf_rule r, d (rf_type r) (rf_field r))) (ft_roots ft))).
+Proof. exact sent_iff_rule_allows. Qed.
+Print Assumptions fetch_gate_transparent_limiter.
+(* a fetch the gate holds back does not reach the limiter (consumes no budget) *)
+Theorem held_back_fetch_not_rate_limited :
+  forall (has_authorization : bool) (request_op : N) (ft : fetchinfo) (k : cache)
+         (enabled : bool) (limiter : option (fetchinfo -> rl_answer)),
+    is_fetch_authorized has_authorization request_op ft k = false ->
+    validate_pre_fetch has_authorization request_op (Some ft) k enabled limiter = false /\
+    limiter_consulted has_authorization request_op (Some ft) k enabled limiter = false.
+Proof. intros. split; [apply gate_no_is_final | apply held_back_not_consulted]; assumption. Qed.
+Print Assumptions held_back_fetch_not_rate_limited.
+Example c14_gate_rate_limit_example :
+  let deny_x := fun (_ f : bytes) => bytes_eqb f [120] in
+  let mut := {| ft_ds := [67]; ft_op := OP_MUTATION; ft_roots := [{| rf_type := [77]; rf_field := [120]; rf_rule := true |}] |} in
+  let ok := {| ft_ds := [67]; ft_op := OP_MUTATION; ft_roots := [{| rf_type := [77]; rf_field := [121]; rf_rule := true |}] |} in
+  let p := {| pl_op := OP_MUTATION; pl_fetches := [mut; ok]; pl_root := PLeaf |} in
+  let k := seed deny_x (collect_coordinates p) in
+  let pass := Some (fun _ : fetchinfo => RlPass) in
+  let reject := Some (fun _ : fetchinfo => RlReject) in
+  (* the denied mutation fetch is not sent: limiter off, enabled and passing, enabled and rejecting *)
+  validate_pre_fetch true OP_MUTATION (Some mut) k false None = false /\
+  validate_pre_fetch true OP_MUTATION (Some mut) k true pass = false /\
+  validate_pre_fetch true OP_MUTATION (Some mut) k true reject = false /\
+  limiter_consulted true OP_MUTATION (Some mut) k true pass = false /\
+  (* the allowed one follows the limiter *)
+  validate_pre_fetch true OP_MUTATION (Some ok) k true pass = true /\
+  validate_pre_fetch true OP_MUTATION (Some ok) k true reject = false /\
+  validate_pre_fetch true OP_MUTATION (Some ok) k false reject = true /\
+  (* a fetch without FetchInfo is not validated *)
+  validate_pre_fetch true OP_MUTATION None k true reject = true.
 Proof. vm_compute. repeat split. Qed.
 
 (* ------------------------------------------------------------------ coordinate per mode *)
